@@ -308,6 +308,9 @@ func c16Oracle[T int8 | int16 | int32 | int64 | int | uint8 | uint16 | uint32 | 
 		// struct positions (first, middle, last member; string tag, pointer, omitempty) through the four
 		// interpreters: each position and option has its own opcode in each of them
 		vv := v
+		if c.Thorough() && i%4 != 0 {
+			continue // (the thorough tier visits every word for the positions above and every fourth for the struct shapes)
+		}
 		for si, sv := range []interface{}{
 			c16F3[T]{X: v, Y: v, Z: v}, &c16F3[T]{X: v, Y: v, Z: v},
 			c16P3[T]{P: &vv, Q: v, R: &vv}, c16P3[T]{Q: v}, []c16F3[T]{{X: v, Y: v, Z: v}},
